@@ -554,6 +554,9 @@ func (s *scripted) obey(c *actor.Context, m *UMsg) {
 			var pe *fs.PathError
 			var err error = pe
 			simrt.ScriptedPanic(err)
+		case 4: // a nil *actor.InternalError: the type the restart path looks for, with nothing behind it
+			var ie *actor.InternalError
+			simrt.ScriptedPanic(ie)
 		case 3: // a struct value
 			simrt.ScriptedPanic(struct {
 				Why  string
